@@ -905,7 +905,7 @@ def explore(ctx, factor, bs):
             for mask in range(1 << len(CORE)):
                 subset = [c for i, c in enumerate(CORE) if mask >> i & 1]
                 one_case(ctx, gen_case(rng, True, subset=subset), tmpdir)
-            ctx.notes["exhaustive"] = "all 2^14 subsets of the header-relevant settings columns (one valuation each)"
+            ctx.notes["exhaustive_substream"] = "all 2^14 subsets of the header-relevant settings columns (one valuation each)"
         tot = ctx.dist.get("fragment:modelled", 0) + ctx.dist.get("fragment:unsupported", 0)
         ctx.notes["fragment_share"] = round(ctx.dist.get("fragment:modelled", 0) / max(1, tot), 4)
     finally:
